@@ -377,6 +377,7 @@ func main() {
 	}
 	for i := range files {
 		files[i].Pkg = fmt.Sprintf("p%04d", i)
+		markReserved(&files[i])
 		tagParsable(&files[i])
 	}
 	plan := map[string]*enumPlan{}
